@@ -5,7 +5,7 @@
 # Uses one scratch worktree of /repo (/tmp/mutv) with an incremental release build; leaves it clean.
 set -u
 PATCH=$(readlink -f "$1"); DEMO=$(readlink -f "$2"); ORIG=${3:-}
-WT=/tmp/mutv
+WT=${SEED_WT:-/tmp/mutv}
 HEAD=$(git -C /repo rev-parse HEAD)
 if [ ! -d $WT ]; then git -C /repo worktree add -q --detach $WT $HEAD || exit 2; fi
 git -C $WT checkout -q -- . ; git -C $WT checkout -q --detach $HEAD || exit 2
@@ -14,7 +14,7 @@ build() {
   cmake --build $WT/_build -j${VERIF_JOBS:-16} > $WT/_build.log 2>&1
 }
 rundemo() {  # $1 = tag
-  local d=/tmp/mutv-demo; rm -rf $d; mkdir -p $d/cache
+  local d=${SEED_WT:-/tmp/mutv}-demo; rm -rf $d; mkdir -p $d/cache
   if [[ "$DEMO" == *.sh ]]; then
     sed "s#${ORIG:-/nonexistent}#$WT#g" "$DEMO" > $d/demo.sh
     ( cd $d && OCCA_DIR=$WT OCCA_CACHE_DIR=$d/cache WT=$WT timeout 600 bash demo.sh > $d/out.$1 2>&1 ); return $?
@@ -25,13 +25,13 @@ rundemo() {  # $1 = tag
 }
 build || { echo "RESULT clean-build-failed"; exit 2; }
 rundemo clean; RC0=$?
-echo "demo on clean tree: rc=$RC0 ($(tail -1 /tmp/mutv-demo/out.clean 2>/dev/null))"
+echo "demo on clean tree: rc=$RC0 ($(tail -1 ${SEED_WT:-/tmp/mutv}-demo/out.clean 2>/dev/null))"
 git -C $WT apply "$PATCH" || { echo "RESULT patch-does-not-apply"; exit 1; }
 if ! build; then echo "RESULT mutated-build-failed"; tail -5 $WT/_build.log; git -C $WT checkout -q -- .; exit 1; fi
 T=$(ctest --test-dir $WT/_build -j8 --timeout 900 2>&1 | grep -E "tests passed|tests failed" | tail -1)
 echo "tests with change: $T"
 rundemo mut; RC1=$?
-echo "demo on changed tree: rc=$RC1 ($(tail -1 /tmp/mutv-demo/out.mut 2>/dev/null))"
+echo "demo on changed tree: rc=$RC1 ($(tail -1 ${SEED_WT:-/tmp/mutv}-demo/out.mut 2>/dev/null))"
 git -C $WT checkout -q -- .
 if [ $RC0 -eq 0 ] && [ $RC1 -ne 0 ] && [ $RC1 -ne 99 ] && echo "$T" | grep -q "100% tests passed"; then echo "RESULT confirmed"; exit 0; fi
 echo "RESULT not-confirmed"; exit 1
